@@ -109,7 +109,7 @@ meta("C19",
 meta("C20",
      rule="Python values of every supported kind (int, finite float, str, char, JSON list/dict, integer/float array, byte array) on and next to subtype/grammar boundaries, and values the datatype cannot represent (tab/newline/non-printable strings, non-finite floats, mixed/out-of-range/empty arrays, bytes > 255, JSON with non-printables), assigned by set() / attribute / after set_datatype on S, L, E, H lines at vlevel 0-3; checked: default datatype, validate_field, written tag vs the datatype grammar, smallest array subtype, read back through gfapy.Line(str(line)) equal with the same datatype; unrepresentable values must fail validation and not be written unflagged at level >= 2; distinct = (kind, value, way, level, carrier) 12% any-class cells (a Python value of any class offered to each declared datatype: never a foreign exception, never malformed text after passing validation); 25% of the good cases assign on a line whose clone got a value of another class under the same tag first; float arrays draw |x| >= 1e16. 30%: carriers of every record type (S L C P E F G O U custom) connected to a Gfa, then rename / further group line / re-add / re-parse before the read-back; 20%: the tag existed before with a value of another class and was removed (None or delete).",
      budget={"quick": 20, "thorough": 300},
-     min_counts={"quick": {"connected_read_backs": 20000, "removed_then_assigned": 10000, "anyclass_assignments": 10000, "sibling_assignments": 10000, "assignments": 30000, "read_backs": 10000, "bad_values_validated": 2000, "kinds": 14}},
+     min_counts={"quick": {"connected_read_backs": 20000, "first_reads": 10000, "removed_then_assigned": 10000, "anyclass_assignments": 10000, "sibling_assignments": 10000, "assignments": 30000, "read_backs": 10000, "bad_values_validated": 2000, "kinds": 14}},
      set_samples=["kinds"])
 
 meta("C11",
